@@ -320,7 +320,7 @@ example :
 end Expr
 
 /-! ## Part 3: statement forms – no print path of a statement node drops a clause the grammar can fill -/
-namespace Forms
+section Forms
 open AcraModel.Sql.Forms Generated.SqlForms
 
 /-- the node kinds of data-manipulation statements exist in `ast.go` (types with an `iStatement` method) -/
